@@ -100,8 +100,9 @@ class Ctx:
             self.classes[cls] += 1
         if nontrivial:
             self.nontrivial.add(sig if isinstance(sig, str) else digest(sig))
-        if sample is not None and len(self.samples) < 3:
-            self.samples.append(sample)
+        if len(self.samples) < 3:
+            # a monitor that gives no sample of its own still shows what kind of case ran
+            self.samples.append(sample if sample is not None else {"case": sig if isinstance(sig, str) else repr(sig)[:200], "class": cls})
 
     def violation(self, key, what, witness=None):
         """An oracle disagreed with the real code. `key` names the mechanism."""
